@@ -59,13 +59,23 @@ Proof.
     rewrite H4. exists (mkP st' (Some c) (v :: log)), (c :: rest), home'. cbn [pstep pcur pst plog]. rewrite H1.
     split; [reflexivity|]. split; [constructor; [reflexivity|assumption|assumption]|]. split; [reflexivity|]. cbn [plog]. rewrite len_cons. lia.
   - (* EMarkFor *)
-    destruct (mark_for_all st log (c :: rest) c rest home eq_refl RS RU ltac:(lia)) as (H1 & H2 & H3 & H4).
-    rewrite H4. eexists (mkP _ (Some c) log), (c :: rest), home. cbn [pstep pcur pst plog]. rewrite H1. cbn [rbind of_res].
-    split; [reflexivity|]. split; [constructor; [reflexivity|assumption|assumption]|]. split; [reflexivity|]. cbn [plog]. lia.
+    pose proof (sim_mark_for st log (c :: rest) c rest home eq_refl RS RU ltac:(lia)) as H.
+    destruct (a_mark_for (abs st log (c :: rest) home)) as [a'| |]; [|destruct H|exact I].
+    destruct H as (st' & H1 & H2 & H3 & H4).
+    exists (mkP st' (Some c) log), (c :: rest), home. cbn [pstep pcur pst plog]. rewrite H1. cbn [rbind of_res].
+    split; [reflexivity|]. split; [constructor; [reflexivity|assumption|assumption]|]. split; [exact H4|]. cbn [plog]. lia.
   - (* EMarkArgs *)
-    destruct (mark_args_all st log (c :: rest) c rest home eq_refl RS RU ltac:(lia)) as (H1 & H2 & H3 & H4).
-    rewrite H4. eexists (mkP _ (Some c) log), (c :: rest), home. cbn [pstep pcur pst plog]. rewrite H1. cbn [rbind of_res].
-    split; [reflexivity|]. split; [constructor; [reflexivity|assumption|assumption]|]. split; [reflexivity|]. cbn [plog]. lia.
+    pose proof (sim_mark_args st log (c :: rest) c rest home eq_refl RS RU ltac:(lia)) as H.
+    destruct (a_mark_args (abs st log (c :: rest) home)) as [a'| |]; [|destruct H|exact I].
+    destruct H as (st' & H1 & H2 & H3 & H4).
+    exists (mkP st' (Some c) log), (c :: rest), home. cbn [pstep pcur pst plog]. rewrite H1. cbn [rbind of_res].
+    split; [reflexivity|]. split; [constructor; [reflexivity|assumption|assumption]|]. split; [exact H4|]. cbn [plog]. lia.
+  - (* EMarkCatch *)
+    pose proof (sim_mark_catch st log (c :: rest) c rest home eq_refl RS RU ltac:(lia)) as H.
+    destruct (a_mark_catch (abs st log (c :: rest) home)) as [a'| |]; [|destruct H|exact I].
+    destruct H as (st' & H1 & H2 & H3 & H4).
+    exists (mkP st' (Some c) log), (c :: rest), home. cbn [pstep pcur pst plog]. rewrite H1. cbn [rbind of_res].
+    split; [reflexivity|]. split; [constructor; [reflexivity|assumption|assumption]|]. split; [exact H4|]. cbn [plog]. lia.
 Qed.
 
 Lemma sim_run : forall evs p stk home,
